@@ -238,11 +238,15 @@ def run(ck: Check):
     ck.coverage.update({
         "evaluations": len(scen), "model_ops_compared": n_ops, "spec_histories_judged": n_spec,
         "distinct_nontrivial": len({(K, tuple(sorted(s.items())), c) for K, s, _, _, c in scen}),
-        "distinct_rule": "distinct (K, arrival schedule with tie orders, other-close instant)",
+        "rule": "case = (keepalive K, arrival schedule on a K/4 or K/8 grid with the tie order at tick instants, optional "
+                "other close); distinct by that tuple; all are non-trivial (each runs to the death or close of the session)",
+        "samples": [{"K": K, "schedule": s, "grid_div": g, "close_at": c, "observed_history": metas[i][2][:40]}
+                    for i, (K, s, _, g, c) in list(enumerate(scen))[1000:1003] + list(enumerate(scen))[-3:]],
         "traces_validated_against_impl": len(scen),
-        "exhaustive": {"all 4096 arrival subsets of a K/4 grid over 3 periods": True,
-                       "every single message instant on a K/8 grid over 7 periods x tie order": True,
-                       "all message pairs on that grid": thorough},
+        "exhaustive": False,
+        "exhaustive_subspaces": {"all 4096 arrival subsets of a K/4 grid over 3 periods": True,
+                                 "every single message instant on a K/8 grid over 7 periods x tie order": True,
+                                 "all message pairs on that grid": thorough},
         "distribution": dist, "keepalive_values_s": sorted(set(K for K, *_ in scen)),
     })
     ck.assumptions += [
